@@ -13,9 +13,9 @@ fix_map = json.load(open(os.path.join(ROOT, 'tools', 'fix_map.json')))
 log = subprocess.run(['git', '-C', '/repo', 'log', '--format=%h\t%s'], capture_output=True, text=True).stdout
 hash_by_subject = {l.split('\t', 1)[1]: l.split('\t', 1)[0] for l in log.splitlines() if '\t' in l}
 
-def commit_for(pid, bucket, fname=''):
+def commit_for(pid, bucket, fname='', text=''):
     for m in fix_map:
-        if m.get('replay_contains') and m['replay_contains'] not in fname:
+        if m.get('replay_contains') and m['replay_contains'] not in fname and m['replay_contains'] not in text:
             continue
         if m['property'] == pid and re.search(m['pattern'], bucket):
             return hash_by_subject.get(m['subject'], '???????'), m['subject']
@@ -52,7 +52,7 @@ for pid in pids:
         if hit:
             print('OPEN       ' + rec['bucket'] + '  -> needs a fix or a known entry')
             continue
-        h, subj = commit_for(pid, rec['bucket'], os.path.basename(new))
+        h, subj = commit_for(pid, rec['bucket'], os.path.basename(new), json.dumps(rec['case']))
         if h is None:
             print('UNMAPPED   ' + rec['bucket'])
             continue
